@@ -135,6 +135,14 @@ PROPERTIES['C15'] = {
     'level_note': _SEL_NOTE.replace('Four documents covering every directive class; one edit / perturbation (two non-editing operations in thorough).', 'Alternatives per argument are listed in harness/c15_construct.py.'),
 }
 
+PROPERTIES['C18'] = {
+    'modules': ['harness.c18_indent'], 'budget': {'quick': 1200, 'thorough': 3300},
+    'level_text': 'Solver-enumerated configurations (parent kind x existing meta layout incl. a leading claimed comment x indent_by strings of 1..3 SP/TAB units x '
+                  'posting indent x insertion route): the created item\'s indent is compared with the documented rule, raw nodes must keep theirs, every '
+                  'existing line keeps its leading blanks, and the result re-parses with the new item under the same parent.',
+    'level_note': _SEL_NOTE.replace('Four documents covering every directive class; one edit / perturbation (two non-editing operations in thorough).', 'Eight parent kinds, five layouts, eight routes.'),
+}
+
 NOT_APPLICABLE = {
     'C16': 'The property is about the operating system and C io layer behind editor.py (text-mode newline translation, pathlib/glob/'
            'os.unlink/os.makedirs, mtimes): none of it can be executed symbolically by CrossHair or encoded for z3, CrossHair forbids '
